@@ -225,3 +225,6 @@ func VerifWriteTLS13PaddedRecord(c *Conn, data []byte, pad int) error {
 // VerifSetSessionSuite changes the cipher suite recorded in a SessionState (a server that resumes a
 // session under another suite than the one it was established with).
 func VerifSetSessionSuite(ss *SessionState, suite uint16) { ss.cipherSuite = suite }
+
+// VerifDefaultCipherSuites returns the TLS <= 1.2 suites a Config with CipherSuites == nil enables.
+func VerifDefaultCipherSuites() []uint16 { return (&Config{}).cipherSuites() }
